@@ -302,7 +302,7 @@ func runC07(r *Report) {
 				if _, f, _, ok := FieldOf(c.Call.Args[0]); !ok || f != "connMap" {
 					return false
 				}
-				return lockSetsOf(in.Parent()).Held(in, "connLock") == "W"
+				return r.held(lockSetsOf(in.Parent()), in, "internal/protocol/session", "SessionManager", "connLock") == "W"
 			}, ""},
 			{"RemoveControlConnection", IsCallTo("SessionManager.RemoveControlConnection"), ""},
 			{"RemoveTunnelConnection", IsCallTo("SessionManager.RemoveTunnelConnection"), ""},
